@@ -38,12 +38,13 @@ impl Template {
                     write!(w, "var I=")?;
                     w.function_args("P", |w| {
                         w.expr_stmt(|w| {
-                            write!(w, "if(!S)S=Object.assign({{}}")?;
+                            // (the main templates are registered under "": they are not callable by name)
+                            write!(w, "if(!S){{S=Object.assign({{}}")?;
                             for i in self.globals.imports.iter() {
                                 let p = crate::path::resolve(&self.path, &i.src.name);
                                 write!(w, ",(G[{}]||{{}})._", gen_lit_str(&p))?;
                             }
-                            write!(w, ",H)")?;
+                            write!(w, ",H);delete S[\"\"]}}")?;
                             Ok(())
                         })?;
                         w.expr_stmt(|w| {
